@@ -177,7 +177,7 @@ def cf_shape(cf: Any) -> Any:
     return ('and' if n == 'CFAnd' else 'or', cf.negated, cf_shape(cf.left), cf_shape(cf.right))
 
 
-def _check_impl_pair(ctx: Any, stage: str, what: str, pf1: Any, pf2: Any, tin: tuple, zout: Any) -> None:
+def _check_impl_pair(ctx: Any, stage: str, what: str, pf1: Any, pf2: Any, tin: tuple, zout: Any, tout: Any = None) -> None:
     """pf1 : in -> out', pf2 : out' -> in with out' propositionally equivalent to the returned form"""
     for pf, fwd in ((pf1, True), (pf2, False)):
         c = O.expand(pf.conc)
@@ -185,6 +185,9 @@ def _check_impl_pair(ctx: Any, stage: str, what: str, pf1: Any, pf2: Any, tin: t
         ctx.check(ok, f'C09.{stage}.implication-proof-has-wrong-shape', lambda: f'{what}: {"forward" if fwd else "backward"} proof concludes {pf.conc!s}')
         other = zbool(c[2] if fwd else c[1])
         ctx.check(_equiv(other, zout), f'C09.{stage}.implication-proof-about-another-formula', lambda: f'{what}: {"forward" if fwd else "backward"} proof concludes {pf.conc!s}')
+        if tout is not None:
+            # the clause list is the advertised result: the proofs are about its pattern, literally
+            ctx.check(O.eq(c[2] if fwd else c[1], tout), f'C09.{stage}.implication-proof-not-about-the-returned-form', lambda: f'{what}: {"forward" if fwd else "backward"} proof concludes {pf.conc!s}, the returned form is {O.show(tout)}')
 
 
 def h_conj_form(ctx: Any, n: int, prof: str, twin: bool = False) -> None:
@@ -291,7 +294,7 @@ def h_stage(ctx: Any, stage: str, leaves: int, nvars: int, twin: bool = False) -
         ctx.check(_nnf(sh) if stage == 'propag_neg' else _is_cnf(sh), f'C09.{stage}.wrong-shape', lambda: f'{pin!s} -> {pout!s}')
     zout = zbool(O.expand(pout))
     ctx.check(_equiv(zin, zout), f'C09.{stage}.not-equivalent', lambda: f'{pin!s} -> {pout!s}')
-    _check_impl_pair(ctx, stage, str(pin), pf1, pf2, tin, zout)
+    _check_impl_pair(ctx, stage, str(pin), pf1, pf2, tin, zout, O.expand(pout) if stage == 'to_clauses' else None)
 
 
 # -- resolution kernel --------------------------------------------------------------------------
